@@ -52,6 +52,7 @@ type loopInfo struct {
 	phiTerm map[*ssa.Phi]Term
 	frameRegs []string
 	lets map[string]Term
+	explicit bool // the specification was written for this loop (not the profile's automatic invariant)
 }
 
 func isBackEdge(u, h *ssa.BasicBlock) bool { return h.Dominates(u) }
@@ -247,6 +248,7 @@ func (c *FnCtx) execFunction(fr *frame, st0 *State, g0 string) {
 	for _, li := range fr.loops {
 		if fr.con != nil {
 			li.spec = fr.con.Loops[li.ordinal]
+			li.explicit = li.spec != nil
 		}
 		if li.spec == nil && len(c.prof.AutoLoopInv) > 0 {
 			li.spec = &LoopSpec{Inv: c.prof.AutoLoopInv}
